@@ -214,7 +214,7 @@ def pre_encoded_url(url_str: str) -> "URL":
     return self
 
 
-@lru_cache
+@lru_cache(typed=True)
 def build_pre_encoded_url(
     scheme: str,
     authority: str,
@@ -261,7 +261,9 @@ def from_parts_uncached(
     return self
 
 
-from_parts = lru_cache(from_parts_uncached)
+# typed: a str subclass argument (which may format differently) must not be handed
+# out later for an equal plain str
+from_parts = lru_cache(typed=True)(from_parts_uncached)
 
 
 @rewrite_module
